@@ -10,6 +10,7 @@ pub mod receiver;
 pub mod stream;
 pub mod c04_shell;
 pub mod c06_shell;
+pub mod classic_ref;
 
 use std::collections::HashMap;
 use std::net::{IpAddr, Ipv4Addr, SocketAddr};
